@@ -329,7 +329,7 @@ gen_misc_prop (gen_t *g, int slot)
     else if (kind == MOP_SET_DITHER_OFFSET) { a[n++] = rng_range (R, -9, 9); a[n++] = rng_range (R, -9, 9); }
     else if (kind == MOP_SET_INDEXED) a[n++] = rng_n (R, 3);
     else if (kind == MOP_SET_ACCESSORS) a[n++] = rng_n (R, 4);      /* none / both / read-only / both */
-    else a[n++] = rng_n (R, 2);
+    else a[n++] = rng_n (R, 4);                                     /* FALSE, TRUE, and two other ways of saying true */
     sc_addv (g->sc, kind, n, a);
 }
 
@@ -592,6 +592,12 @@ gen_region_op (gen_t *g)
     switch (kind)
     {
     case MOP_R_INIT_RECTS:
+	if (rng_chance (R, 1, 8))
+	{
+	    /* enough boxes to make validate() grow its tables */
+	    a[n++] = rng_n (R, M_NREG); a[n++] = rng_range (R, 60, 300); a[n++] = rng_n (R, 3); a[n++] = (int64_t)(rng_u64 (R) >> 24);
+	    break;
+	}
 	cnt = rng_chance (R, 1, 5) ? (int)rng_range (R, 17, 20) : (int)rng_range (R, 0, 12);
 	a[n++] = rng_n (R, M_NREG); a[n++] = cnt;
 	for (i = 0; i < cnt; i++)
@@ -686,4 +692,16 @@ gen_cover_bilinear (gen_t *g, int src, int dst)
     c[n++] = 0; c[n++] = 0; c[n++] = 0; c[n++] = 0; c[n++] = 0; c[n++] = 0;
     c[n++] = rng_range (R, 1, sw - 2); c[n++] = rng_range (R, 1, sh - 2);
     sc_addv (g->sc, MOP_COMPOSITE, n, c);
+}
+
+/* slot := alias image of format fmt_idx over the pixels of bits image `other` */
+void
+gen_alias (gen_t *g, int slot, int other, int fmt_idx)
+{
+    int64_t a[8];
+    int n = prefix (g, a);
+    a[n++] = slot; a[n++] = other; a[n++] = fmt_idx;
+    sc_addv (g->sc, MOP_ALIAS, n, a);
+    g->s[slot] = g->s[other];
+    g->s[slot].fmt_idx = fmt_idx; g->s[slot].refs = 1; g->s[slot].has_alpha = -1; g->s[slot].alpha_of = 0;
 }
